@@ -3,6 +3,7 @@ package props
 import (
 	"bytes"
 	"context"
+	"errors"
 	"fmt"
 	"strconv"
 	"strings"
@@ -103,6 +104,13 @@ func runC15(c *harness.Case) {
 		return
 	}
 	defer func() { eng.Close() }()
+	// every third case: the nodes see the store through the production storage metrics wrapper, and the engine's
+	// timestamp oracle fails once during the take-over (a PD outage); the failed attempt is simply repeated
+	var ow *harness.Wrap
+	if c.Index%3 == 2 && !strings.HasSuffix(kind, "-restart") {
+		ow = harness.NewWrap(eng.KV)
+		eng.KV = harness.WithMetrics(ow, harness.NewRecMetrics(true))
+	}
 	a := harness.NewNode(harness.NodeOpts{KV: eng.KV, SkipInit: true, Config: backend.Config{Identity: "node-a:2380"}})
 	va, err := elect(a, "node-a:2380")
 	if err != nil {
@@ -284,7 +292,25 @@ func runC15(c *harness.Case) {
 		c.Stat("follower_reads_before_handover", atomic.LoadInt64(&followerReads))
 	}
 	defer b.Retire()
+	if ow != nil {
+		failAt, calls := int32(1+r.Intn(2)), int32(0)
+		ow.OracleFault = func() error {
+			if atomic.AddInt32(&calls, 1) == failAt {
+				return errors.New("injected oracle outage")
+			}
+			return nil
+		}
+	}
 	vb, err := elect(b, idB)
+	if err != nil && ow != nil && strings.Contains(err.Error(), "injected oracle outage") {
+		// the attempt failed on the outage, as it may; client-go tries again a retry period later
+		c.Stat("election_attempts_failed_by_an_oracle_outage", 1)
+		vb, err = elect(b, idB)
+	}
+	if ow != nil {
+		ow.OracleFault = nil
+		c.Stat("takeovers_with_an_oracle_outage", 1)
+	}
 	if err != nil {
 		c.Violatef("C15 new-leader-cannot-be-elected engine="+base, s.witness(), "new leader could not take the lock: %v", err)
 		return
